@@ -79,6 +79,11 @@ def generate(rng, tier):
         content, algs, sums, is_patch = files[nm]
         bad = text.replace(sums[0][1].encode(), (("0" if sums[0][1][0] != "0" else "1") + sums[0][1][1:]).encode(), 1)
         cases.append(Case("di.verify", [enc(bad), enc(nm), enc(content), str(sums[0][0])], meta={"kind": "bad-record", "nt": True}))
+        # a recorded hash that differs from the digest only in letter case is still a mismatch
+        h = sums[0][1]
+        up = h.upper() if rng.random() < 0.5 else "".join(ch.upper() if (ch.isalpha() and rng.random() < 0.3) else ch for ch in h)
+        if up != h:
+            cases.append(Case("di.verify", [enc(text.replace(h.encode(), up.encode(), 1)), enc(nm), enc(content), str(sums[0][0])], meta={"kind": "bad-record-case", "nt": True}))
         bad2 = text.replace(b") = %d bytes" % len(content), b") = %d bytes" % (len(content) + 1))
         cases.append(Case("di.verify", [enc(bad2), enc(nm), enc(content), "S"], meta={"kind": "bad-size-record", "nt": True}))
         cases.append(Case("di.find", [enc(text), enc(b"x/y/" + nm)], meta={"kind": "find", "nt": True}))
@@ -95,3 +100,7 @@ def stats(cases, obsI):
         k = c.meta.get("kind", "?") + "->" + (o or "None").split(":")[0] + ":" + ((o or "").split(":") + [""])[1][:12]
         d[k] = d.get(k, 0) + 1
     return d
+
+
+def shrinkable(c, ai):
+    return c.op == "di.verify" and ai == 2 and c.args[2] != "N"
